@@ -3,6 +3,8 @@
 //! value tokens inside a field joined by '_').
 //!
 //!   LIST                                           the struct shapes, enum sets and "other" types compiled in
+//!                                                  (slices= / E6= : shapes and an enum set whose arrays are raw slices of the
+//!                                                  fixed-size primitives u8 i16 u16 i32 u32 i64 u64 f64: Vec<E>, &[E], [E; N], Cow<[E]>)
 //!   ST <shape> <bo> <prefix> <struct value>        tuple (T), derived struct (D), Param (P): encode, decode 3x3
 //!   HS <shape> <bo> <other> <value of other>       body holds <other>; get::<D>, get::<T>, get::<other>
 //!   EN <set> <bo> <prefix> <case> <payload>        typed Variant (V), derived enum (D), dbus_variant_sig! (S),
@@ -110,12 +112,73 @@ dstruct!(SVec, 2, a: Vec<u64>, b: u8); // <aty>
 dstruct!(SMap, 3, a: u8, b: HashMap<String, u32>, c: u16); // <ya{su}q>
 dstruct!(SVar, 2, a: Var<u32>, b: u8); // <v[u]y>
 dstruct!(SFour, 4, a: u8, b: Var<(u8, u64)>, c: String, d: i16); // <yv[(yt)]sn>
+dstruct!(SFive, 5, a: u8, b: Var<(u8, u64)>, c: String, d: i16, e: u8); // <yv[(yt)]sny>: SFour and one more field (tuples end at 4 fields)
 dstruct!(SVecD, 2, a: Vec<SYt>, b: u8); // <a<yt>y>
 dstruct!(SBd, 2, a: bool, b: F64); // <bd>
 dstruct!(SGt, 3, a: Sig, b: u64, c: Path); // <gto>
 dstruct!(SArrS, 2, a: u8, b: Vec<(u8, String)>); // <ya(ys)>
 dstruct!(SVarD, 2, a: u8, b: Var<SYt>); // <yv[<yt>]>
 dstruct!(SMapD, 2, a: HashMap<u8, SYt>, b: u8); // <a{y<yt>}y>
+
+// Arrays of the fixed-size primitives as RAW slices: the element types are the crate's own u8 i16 u16 i32 u32 i64 u64 f64,
+// whose Signature::valid_slice() sends &[E] / [E] / [E; N] / Vec<E> / Cow<[E]> down the memory-copy path when the body
+// has the machine's byte order and down the element loop otherwise (u8: always the copy). The Param API has no such
+// path, so these shapes compare the two in both byte orders. `<yaX>`: tuple (u8, Vec<E>) against a derived struct whose
+// field is written through &[E] and read through Cow<[E]>; `<aXn>`: tuple written through <&[E] as Marshal> against a
+// derived struct written through [E; N] / the unsized [E] (both read through Vec<E>).
+macro_rules! slice_structs {
+    ($($e:ty, $c:ident, $r:ident);+) => {
+        $(
+            dstruct!($c, 2, a: u8, b: CowA<$e>);
+            dstruct!($r, 2, a: ArrN<$e>, b: i16);
+        )+
+    };
+}
+slice_structs!(u8, SlCy, SlRy; i16, SlCn, SlRn; u16, SlCq, SlRq; i32, SlCi, SlRi; u32, SlCu, SlRu; i64, SlCx, SlRx; u64, SlCt, SlRt; f64, SlCd, SlRd);
+dstruct!(SlNest, 3, a: Vec<CowA<f64>>, b: Vec<Vec<u16>>, c: HashMap<u8, Vec<i32>>); // <aadaaqa{yai}>
+
+/// Vec<f64> with the Eq that dbus_variant_sig! wants of its case types (bit patterns compared); every trait goes
+/// straight to the crate's impl for Vec<f64> / &[f64]
+#[derive(Debug)]
+pub struct Fs(pub Vec<f64>);
+impl PartialEq for Fs {
+    fn eq(&self, o: &Self) -> bool {
+        self.0.len() == o.0.len() && self.0.iter().zip(o.0.iter()).all(|(a, b)| a.to_bits() == b.to_bits())
+    }
+}
+impl Eq for Fs {}
+impl Tok for Fs {
+    fn from_tok(a: &mut Args) -> Self {
+        Fs(Vec::<f64>::from_tok(a))
+    }
+    fn to_tok(&self, out: &mut Vec<String>, s: bool) {
+        self.0.to_tok(out, s)
+    }
+}
+impl Signature for Fs {
+    fn signature() -> signature::Type {
+        Vec::<f64>::signature()
+    }
+    fn alignment() -> usize {
+        Vec::<f64>::alignment()
+    }
+    fn sig_str(s: &mut rustbus::wire::marshal::traits::SignatureBuffer) {
+        Vec::<f64>::sig_str(s)
+    }
+    fn has_sig(s: &str) -> bool {
+        Vec::<f64>::has_sig(s)
+    }
+}
+impl Marshal for Fs {
+    fn marshal(&self, ctx: &mut rustbus::wire::marshal::MarshalContext) -> Result<(), rustbus::wire::errors::MarshalError> {
+        self.0.marshal(ctx)
+    }
+}
+impl<'buf, 'fds> Unmarshal<'buf, 'fds> for Fs {
+    fn unmarshal(ctx: &mut rustbus::wire::unmarshal_context::UnmarshalContext<'fds, 'buf>) -> Result<Self, UnmarshalError> {
+        Vec::<f64>::unmarshal(ctx).map(Fs)
+    }
+}
 
 // ------------------------------------------------------------------------------------------------ Param trees
 fn parse_one_type(s: &str) -> signature::Type {
@@ -982,6 +1045,9 @@ macro_rules! with_other {
             "(v[y]y)" => $f::<$($pre,)* (Var<u8>, u8)>($($arg),*),
             "<yt>" => $f::<$($pre,)* SYt>($($arg),*),
             "<ysy>" => $f::<$($pre,)* SYsy>($($arg),*),
+            "<yv[(yt)]sny>" => $f::<$($pre,)* SFive>($($arg),*),
+            "(yv[(yt)]s)" => $f::<$($pre,)* (u8, Var<(u8, u64)>, String)>($($arg),*),
+            "(atyy)" => $f::<$($pre,)* (Vec<u64>, u8, u8)>($($arg),*),
             x => format!("BAD other type {}", x),
         }
     };
@@ -990,6 +1056,8 @@ const OTHERS: &[&str] = &[
     "y", "n", "q", "u", "x", "t", "b", "d", "s", "o", "g", "ay", "at", "as", "a(yt)", "aat", "a{su}", "a{sv[u]}", "v[y]", "v[v[s]]",
     "(y)", "(t)", "(yt)", "(ty)", "(yu)", "(uu)", "(yty)", "(y(t))", "((yt))", "((y)t)", "(ysy)", "(ys)", "(ysyy)", "(sy)", "(tyu)",
     "(tyuy)", "(y(yt))", "(y(ty))", "(yyt)", "(aty)", "(ayy)", "(u)", "(s)", "(n)", "(tv[u])", "(v[u]y)", "(v[y]y)", "<yt>", "<ysy>",
+    // one field more / one field fewer than the 4-field shape <yv[(yt)]sn> (every tuple arity 1..4 needs both among the others)
+    "<yv[(yt)]sny>", "(yv[(yt)]s)", "(atyy)",
 ];
 
 macro_rules! with_shape {
@@ -1019,6 +1087,35 @@ macro_rules! with_shape {
 const SHAPES: &[&str] = &[
     "<yt>", "<ysy>", "<tyu>", "<u>", "<s>", "<y<yt>>", "<y(yt)<ysy>>", "<aty>", "<ya{su}q>", "<v[u]y>", "<yv[(yt)]sn>", "<a<yt>y>",
     "<bd>", "<gto>", "<ya(ys)>", "<yv[<yt>]>", "<a{y<yt>}y>",
+];
+/// the raw-slice shapes (ST only; see slice_structs! above)
+macro_rules! with_slice_shape {
+    ($name:expr, $m:ident, ($($arg:tt)*)) => {
+        match $name {
+            "<yay>" => $m!((u8, Vec<u8>), SlCy, $($arg)*),
+            "<yan>" => $m!((u8, Vec<i16>), SlCn, $($arg)*),
+            "<yaq>" => $m!((u8, Vec<u16>), SlCq, $($arg)*),
+            "<yai>" => $m!((u8, Vec<i32>), SlCi, $($arg)*),
+            "<yau>" => $m!((u8, Vec<u32>), SlCu, $($arg)*),
+            "<yax>" => $m!((u8, Vec<i64>), SlCx, $($arg)*),
+            "<yat>" => $m!((u8, Vec<u64>), SlCt, $($arg)*),
+            "<yad>" => $m!((u8, Vec<f64>), SlCd, $($arg)*),
+            "<ayn>" => $m!((SliceR<u8>, i16), SlRy, $($arg)*),
+            "<ann>" => $m!((SliceR<i16>, i16), SlRn, $($arg)*),
+            "<aqn>" => $m!((SliceR<u16>, i16), SlRq, $($arg)*),
+            "<ain>" => $m!((SliceR<i32>, i16), SlRi, $($arg)*),
+            "<aun>" => $m!((SliceR<u32>, i16), SlRu, $($arg)*),
+            "<axn>" => $m!((SliceR<i64>, i16), SlRx, $($arg)*),
+            "<atn>" => $m!((SliceR<u64>, i16), SlRt, $($arg)*),
+            "<adn>" => $m!((SliceR<f64>, i16), SlRd, $($arg)*),
+            "<aadaaqa{yai}>" => $m!((Vec<Vec<f64>>, Vec<Vec<u16>>, HashMap<u8, Vec<i32>>), SlNest, $($arg)*),
+            x => format!("BAD slice shape {}", x),
+        }
+    };
+}
+const SLICES: &[&str] = &[
+    "<yay>", "<yan>", "<yaq>", "<yai>", "<yau>", "<yax>", "<yat>", "<yad>", "<ayn>", "<ann>", "<aqn>", "<ain>", "<aun>", "<axn>",
+    "<atn>", "<adn>", "<aadaaqa{yai}>",
 ];
 macro_rules! call_st {
     ($T:ty, $D:ty, $bo:expr, $prefix:expr, $rest:expr) => {
@@ -1562,6 +1659,107 @@ impl EnumSet for Set5 {
     }
 }
 
+// ---- E6: raw-slice arrays of every fixed-size primitive as case payloads (see slice_structs!)
+pub type E6A = Vec<u8>;
+pub type E6B = Vec<i16>;
+pub type E6C = Vec<u16>;
+pub type E6Dt = Vec<i32>;
+pub type E6E = Vec<u32>;
+pub type E6F = Vec<i64>;
+pub type E6G = Vec<u64>;
+pub type E6I = (u8, Fs);
+pub type E6J = (Vec<i32>, u16);
+#[derive(Marshal, Unmarshal, Signature, Debug)]
+pub enum E6D {
+    A(Vec<u8>),
+    B(Vec<i16>),
+    C(Vec<u16>),
+    D(Vec<i32>),
+    E(Vec<u32>),
+    F(Vec<i64>),
+    G(Vec<u64>),
+    H(Vec<f64>),
+    I(u8, Vec<f64>),
+    J { a: Vec<i32>, b: u16 },
+}
+dbus_variant_sig!(E6S, A => E6A; B => E6B; C => E6C; D => E6Dt; E => E6E; F => E6F; G => E6G; H => Fs; I => E6I; J => E6J);
+dbus_variant_var!(E6M, A => E6A; B => E6B; C => E6C; D => E6Dt; E => E6E; F => E6F; G => E6G; H => Fs; I => E6I; J => E6J);
+const E6_DESC: &str = "1:ay|1:an|1:aq|1:ai|1:au|1:ax|1:at|1:ad|m:yad|n:aiq";
+struct Set6;
+impl EnumSet for Set6 {
+    fn push(api: &str, i: usize, rest: &str, body: &mut MarshalledMessageBody) -> bool {
+        match i {
+            0 => push_case!(api, rest, body, E6A, |x| E6D::A(x), |x| E6S::A(x), |x| E6M::A(x)),
+            1 => push_case!(api, rest, body, E6B, |x| E6D::B(x), |x| E6S::B(x), |x| E6M::B(x)),
+            2 => push_case!(api, rest, body, E6C, |x| E6D::C(x), |x| E6S::C(x), |x| E6M::C(x)),
+            3 => push_case!(api, rest, body, E6Dt, |x| E6D::D(x), |x| E6S::D(x), |x| E6M::D(x)),
+            4 => push_case!(api, rest, body, E6E, |x| E6D::E(x), |x| E6S::E(x), |x| E6M::E(x)),
+            5 => push_case!(api, rest, body, E6F, |x| E6D::F(x), |x| E6S::F(x), |x| E6M::F(x)),
+            6 => push_case!(api, rest, body, E6G, |x| E6D::G(x), |x| E6S::G(x), |x| E6M::G(x)),
+            7 => push_case!(api, rest, body, Fs, |x| E6D::H(x.0), |x| E6S::H(x), |x| E6M::H(x)),
+            8 => push_case!(api, rest, body, E6I, |x| E6D::I(x.0, (x.1).0), |x| E6S::I(x), |x| E6M::I(x)),
+            9 => push_case!(api, rest, body, E6J, |x| E6D::J { a: x.0, b: x.1 }, |x| E6S::J(x), |x| E6M::J(x)),
+            _ => panic!("case"),
+        }
+    }
+    fn read_v(i: usize, p: &mut MessageBodyParser) -> String {
+        match i {
+            0 => read_typed::<Var<E6A>>(p),
+            1 => read_typed::<Var<E6B>>(p),
+            2 => read_typed::<Var<E6C>>(p),
+            3 => read_typed::<Var<E6Dt>>(p),
+            4 => read_typed::<Var<E6E>>(p),
+            5 => read_typed::<Var<E6F>>(p),
+            6 => read_typed::<Var<E6G>>(p),
+            7 => read_typed::<Var<Vec<f64>>>(p),
+            8 => read_typed::<Var<(u8, Vec<f64>)>>(p),
+            _ => read_typed::<Var<E6J>>(p),
+        }
+    }
+    fn read_enum(api: &str, p: &mut MessageBodyParser, inner: &dyn Fn(&rustbus::wire::unmarshal::traits::Variant) -> String) -> Result<String, UnmarshalError> {
+        Ok(match api {
+            "D" => match p.get::<E6D>()? {
+                E6D::A(x) => case_str(0, &x),
+                E6D::B(x) => case_str(1, &x),
+                E6D::C(x) => case_str(2, &x),
+                E6D::D(x) => case_str(3, &x),
+                E6D::E(x) => case_str(4, &x),
+                E6D::F(x) => case_str(5, &x),
+                E6D::G(x) => case_str(6, &x),
+                E6D::H(x) => case_str(7, &x),
+                E6D::I(a, b) => case_str(8, &(a, b)),
+                E6D::J { a, b } => case_str(9, &(a, b)),
+            },
+            "S" => match p.get::<E6S>()? {
+                E6S::A(x) => case_str(0, &x),
+                E6S::B(x) => case_str(1, &x),
+                E6S::C(x) => case_str(2, &x),
+                E6S::D(x) => case_str(3, &x),
+                E6S::E(x) => case_str(4, &x),
+                E6S::F(x) => case_str(5, &x),
+                E6S::G(x) => case_str(6, &x),
+                E6S::H(x) => case_str(7, &x),
+                E6S::I(x) => case_str(8, &x),
+                E6S::J(x) => case_str(9, &x),
+                E6S::Catchall(t) => format!("catch,{}", sig_str(&t)),
+            },
+            _ => match p.get::<E6M>()? {
+                E6M::A(x) => case_str(0, &x),
+                E6M::B(x) => case_str(1, &x),
+                E6M::C(x) => case_str(2, &x),
+                E6M::D(x) => case_str(3, &x),
+                E6M::E(x) => case_str(4, &x),
+                E6M::F(x) => case_str(5, &x),
+                E6M::G(x) => case_str(6, &x),
+                E6M::H(x) => case_str(7, &x),
+                E6M::I(x) => case_str(8, &x),
+                E6M::J(x) => case_str(9, &x),
+                E6M::Catchall(v) => format!("catch,{},{}", sig_str(v.get_value_sig()), inner(&v)),
+            },
+        })
+    }
+}
+
 // ---- EC: enums in element position
 /// an enum value in token syntax: v <case signature> <payload>; reading picks the first case with that signature
 impl Tok for E1D {
@@ -1893,7 +2091,7 @@ fn eval(line: &str) -> String {
     let op = line.split(' ').next().unwrap_or("");
     match op {
         "LIST" => format!(
-            "shapes={} others={} E1={} E2={} E3={} E4={} E5={} kinds={}",
+            "shapes={} others={} E1={} E2={} E3={} E4={} E5={} kinds={} slices={} E6={}",
             SHAPES.join(","),
             OTHERS.join(","),
             E1_DESC,
@@ -1901,7 +2099,9 @@ fn eval(line: &str) -> String {
             e3_desc(),
             E4_DESC,
             e5_desc(),
-            KINDS.join(",")
+            KINDS.join(","),
+            SLICES.join(","),
+            E6_DESC
         ),
         "EC" => {
             let (h, rest) = split_rest(line, 4);
@@ -1918,7 +2118,11 @@ fn eval(line: &str) -> String {
             let (h, rest) = split_rest(line, 4);
             let bo = bo_of(h[2]);
             let prefix: u64 = h[3].parse().unwrap();
-            with_shape!(h[1], call_st, (bo, prefix, &rest))
+            if SLICES.contains(&h[1]) {
+                with_slice_shape!(h[1], call_st, (bo, prefix, &rest))
+            } else {
+                with_shape!(h[1], call_st, (bo, prefix, &rest))
+            }
         }
         "HS" => {
             let (h, rest) = split_rest(line, 4);
@@ -1937,6 +2141,7 @@ fn eval(line: &str) -> String {
                 "E3" => en::<Set3>(bo, prefix, case, &rest),
                 "E4" => en::<Set4>(bo, prefix, case, &rest),
                 "E5" => en::<Set5>(bo, prefix, case, &rest),
+                "E6" => en::<Set6>(bo, prefix, case, &rest),
                 x => format!("BAD set {}", x),
             }
         }
